@@ -286,3 +286,26 @@ PROPS['C19'] = dict(
                  'descriptor leaks inside the real lib/rsocks are outside every check (PARTIAL)'],
     timeout={'quick': 900, 'thorough': 7200},
 )
+
+# ---- end to end on the real kernel (harness/e2e_test.go): the real binaries over a veth pair in a private network namespace ----
+E2E_RULE = (' PLUS one end-to-end run of the real psa-dhcpd and psa-dhcpc binaries (no verif tag: real AF_PACKET sockets, netlink, main functions, text '
+            'configuration) over a veth pair in a private network namespace: acquisition with a foreign host answering ARP for one pool address, a link flap '
+            '(re-validation by rebinding), 120 malformed frames; every frame is captured with its link-layer header, the interface configuration, routes and '
+            'the programs\' open sockets are read from the kernel (skipped, and said so in the evidence, where network namespaces are unavailable).')
+for _pid, _cases in (('C02', []), ('C06', ['e2e-server']), ('C07', []), ('C08', []), ('C10', []), ('C15', []), ('C16', ['e2e-client']), ('C19', [])):
+    _p = PROPS[_pid]
+    _p['tests'] = list(_p['tests']) + ['TestE2E']
+    if _pid == 'C06':
+        _p['monitor_tags'] = set(_p['monitor_tags']) | {1410}
+    _p['rule'] = _p['rule'] + E2E_RULE
+    if _p.get('direct_files') is not None:
+        _p['direct_files'] = list(_p['direct_files']) + ['e2e-' + _pid.lower()]
+    else:
+        # everything this property's own tests write, plus its own end-to-end log (not those of the other properties)
+        _p['direct_exclude_prefix'] = 'e2e-'
+        _p['direct_include'] = ['e2e-' + _pid.lower()]
+    if _p.get('case_files') is not None:
+        _p['case_files'] = list(_p['case_files']) + _cases
+    else:
+        _p['case_exclude'] = [n for n in ('e2e-server', 'e2e-client') if n not in _cases]
+    _p['trusted'] = list(_p['trusted']) + ['end-to-end run: one network namespace for both ends of the veth pair (arp_ignore=1 so that the kernel does not answer for the other end); the observer\'s own AF_PACKET capture and /proc readings']
